@@ -119,8 +119,8 @@ type callState struct {
 	sc      *callScenario
 	entered atomic.Bool
 	exited  chan struct{}
-	sawEOF bool
-	ctxErr bool
+	sawEOF  bool
+	ctxErr  bool
 }
 
 var callStates sync.Map
